@@ -189,7 +189,8 @@ int stream_read_lp(std::istream& in, bool rational, BareLP& out) {
       // mirrored storage: every row entry appears in the column copy with the same value
       long cnt = 0;
       for (int i = 0; i < lp.nRows() && out.consistent; i++) { const SVector& r = lp.rowVector(i);
-        for (int k = 0; k < r.size(); k++) { cnt++; int j = r.index(k); if (j < 0 || j >= lp.nCols() || lp.colVector(j)[i] != r.value(k)) { out.consistent = false; out.why = "row/col copies differ"; break; } } }
+        for (int k = 0; k < r.size() && out.consistent; k++) for (int k2 = 0; k2 < k; k2++) if (r.index(k) == r.index(k2)) { out.consistent = false; out.why = "duplicate entries for one row and column"; break; }
+        for (int k = 0; k < r.size() && out.consistent; k++) { cnt++; int j = r.index(k); if (j < 0 || j >= lp.nCols() || lp.colVector(j)[i] != r.value(k)) { out.consistent = false; out.why = "row/col copies differ"; break; } } }
       long cnt2 = 0; for (int j = 0; j < lp.nCols(); j++) cnt2 += lp.colVector(j).size();
       if (out.consistent && cnt != cnt2) { out.consistent = false; out.why = "row/col nonzero counts differ"; }
     }
